@@ -163,7 +163,12 @@ public:
       if (it != g_expect.end() && msg.substr(i + 1) != it->second) obs({3, 7, id});
     }
   }
-  void flush_sink() override { obs({2, _idx}); }
+  void flush_sink() override
+  {
+    for (u64 p : _plan)
+      if (p == 4095) throw std::runtime_error("verif sink failure"); // this sink's flush always throws
+    obs({2, _idx});
+  }
 
 private:
   u64 _idx;
